@@ -1,4 +1,5 @@
 //! dsv — property-based verification harness for odf/rust_dsymbols
 pub mod runner;
 pub mod util;
+pub mod oracle;
 pub mod props;
